@@ -4,6 +4,7 @@ import io
 from hypothesis import strategies as st
 
 from vlib import harness, refvbs
+from vlib.strat import uniform
 from vlib.harness import exc_sig
 from cardutil import mciipm
 from props import c03
@@ -93,8 +94,8 @@ def sweep_reads(ctx, residues, full):
         ctx.sample({'input': '5 blocks of position-coded payload', 'sizes': chunkings(700)[1] + [313, None, 5, None]})
 
 
-SIZE = st.one_of(st.sampled_from([1, 2, 4, 1010, 1011, 1012, 1013, 1014, 2024, 2025]), st.integers(1, 2600), st.none())
-READS = st.tuples(st.integers(0, 5 * 1012 + 20), st.booleans(), st.lists(SIZE, min_size=1, max_size=12))
+SIZE = st.one_of(st.sampled_from([1, 2, 4, 1010, 1011, 1012, 1013, 1014, 2024, 2025]), uniform(1, 2600), st.none())
+READS = st.tuples(uniform(0, 5 * 1012 + 20), st.booleans(), st.lists(SIZE, min_size=1, max_size=12))
 
 
 def hyp_reads(ctx, n):
